@@ -124,10 +124,18 @@ T6 = [
  ("R6_C01_3", "G", 3, [("demo3.rs", "server/tests/demo3.rs")], "cargo test -p server --offline --test demo3", ["C01", "C12", "C10"]),
 ]
 
+# seventh round (SEEDED_SRC=/tmp/s7): one property text per agent, 12-minute limit
+T7 = [
+ ("R7_C02_1", "A", 1, [("demo.rs", "server/tests/demo.rs")], "cargo test -p server --offline --test demo", ["C02", "C10", "C14"]),
+ ("R7_C13_1", "B", 1, [("demo.rs", "solution/tests/demo.rs")], "cargo test -p solution --offline --test demo", ["C13", "C10", "C09"]),
+ ("R7_C16_1", "C", 1, [("demo.rs", "server/tests/demo.rs")], "cargo test -p server --offline --test demo", ["C16", "C05", "C04"]),
+ ("R7_C04_1", "D", 1, [("demo.rs", "server/tests/demo.rs")], "cargo test -p server --offline --test demo", ["C04", "C09", "C11"]),
+]
+
 def confirm2(only):
     path = "/verif/notes/seeded2_confirm.json"
     res = json.load(open(path)) if os.path.exists(path) else {}
-    for (key, wtid, k, demos, cmd, _checks) in T2 + T3 + T4 + T5 + T6:
+    for (key, wtid, k, demos, cmd, _checks) in T2 + T3 + T4 + T5 + T6 + T7:
         if only and key not in only:
             continue
         wt = "%s/%s" % (SRC, wtid); out = "%s/%s-out" % (SRC, wtid)
@@ -159,7 +167,7 @@ def detect2(only):
     res = json.load(open(path)) if os.path.exists(path) else {}
     if sh("git -C /repo diff --quiet")[0] != 0:
         print("/repo dirty"); sys.exit(2)
-    for (key, wtid, k, demos, cmd, checks) in T2 + T3 + T4 + T5 + T6:
+    for (key, wtid, k, demos, cmd, checks) in T2 + T3 + T4 + T5 + T6 + T7:
         if only and key not in only:
             continue
         diff = "%s/%s-out/change%d.diff" % (SRC, wtid, k)
@@ -268,7 +276,7 @@ def redetect(only):
     d1 = json.load(open("/verif/notes/seeded_detect.json")); d2 = json.load(open("/verif/notes/seeded2_detect.json"))
     if sh("git -C /repo diff --quiet")[0] != 0:
         print("/repo dirty"); sys.exit(2)
-    items = [("%s_%d" % (pid, k), checks) for (pid, k, _d, _dest, _cmd, checks) in T] + [(key, checks) for (key, _w, _k, _dm, _cmd, checks) in T2 + T3 + T4 + T5 + T6]
+    items = [("%s_%d" % (pid, k), checks) for (pid, k, _d, _dest, _cmd, checks) in T] + [(key, checks) for (key, _w, _k, _dm, _cmd, checks) in T2 + T3 + T4 + T5 + T6 + T7]
     for key, checks in items:
         if (only and key not in only) or key in res:
             continue
